@@ -591,6 +591,10 @@ def gen_toml(rng, decoy=False):
             q = gen.pick(rng, ["'", '"'])
             if q in val:
                 q = '"' if q == "'" else "'"
+            if rng.random() < 0.04 and not decoy:
+                # a value that is not a name at all (TOML boolean / number): it names no unit, the slot must stay
+                lines.append(f"{slot} = {gen.pick(rng, ['true', 'false', '17', '2.5'])}")
+                continue
             lines.append(f"{slot} = {q}{val}{q}" + ("   # c" if rng.random() < 0.1 else ""))
             assign[slot] = val
         if rng.random() < 0.2:
